@@ -146,6 +146,11 @@ func (s Server) Serve(c context.Context, conn network.Conn) (err error) {
 		// Use a new variable to hold the standard context to avoid modify the initial
 		// context.
 		cc = c
+
+		// The trace info the context came with (the engine installs one when a tracer is configured, none
+		// otherwise). RequestContext.SetTraceInfo lets a handler replace it; the replacement, and what was
+		// recorded into it, must not reach the request that is served next with this context.
+		pooledTraceInfo = ctx.GetTraceInfo()
 	)
 
 	// for sensing connection close
@@ -186,13 +191,12 @@ func (s Server) Serve(c context.Context, conn network.Conn) (err error) {
 			return
 		}
 
+		ctx.SetTraceInfo(pooledTraceInfo)
 		s.putRequestContext(ctx)
 	}()
 
-	ctx.HTMLRender = s.HTMLRender
 	ctx.SetConn(conn)
 
-	ctx.Request.SetIsTLS(s.TLS != nil)
 	ctx.SetEnableTrace(s.EnableTrace)
 
 	if !s.NoDefaultServerHeader {
@@ -238,6 +242,11 @@ func (s Server) Serve(c context.Context, conn network.Conn) (err error) {
 			})
 		}
 
+		// Engine configuration and a property of the connection, installed for every request: ResetWithoutConn
+		// keeps both fields, and what a handler did to them (ctx.HTMLRender = ..., Request.SetIsTLS, Request.Reset)
+		// must not be used for the next request of a keep-alive connection.
+		ctx.HTMLRender = s.HTMLRender
+		ctx.Request.SetIsTLS(s.TLS != nil)
 		ctx.Response.Header.SetNoDefaultDate(s.NoDefaultDate)
 		ctx.Response.Header.SetNoDefaultContentType(s.NoDefaultContentType)
 
@@ -476,6 +485,7 @@ func (s Server) Serve(c context.Context, conn network.Conn) (err error) {
 			traceStarted = false
 		}
 
+		ctx.SetTraceInfo(pooledTraceInfo)
 		ctx.ResetWithoutConn()
 	}
 }
